@@ -12,6 +12,7 @@
 //! everything done *inside* closures (and `find_any`, the error kept by a
 //! `Result` collect, what is skipped after a short-circuit) follows the schedule.
 
+pub use crate::Either;
 use crate::sim::{self, Mode};
 use std::collections::{BTreeMap, BTreeSet, HashMap, HashSet};
 use std::hash::{BuildHasher, Hash};
